@@ -1222,34 +1222,75 @@ func (s *session) lagAll() {
 				sIdx = append(sIdx, i)
 			}
 		}
-		for _, k := range []int{sp.m + 1, sp.d} {
+		// first the torn variant: the state bulk at position l reached the disk but for its last entry, the
+		// completion marker (the state itself is all there). A recovery that does not insist on the marker comes
+		// up on it — and would walk into missing trie nodes (and take the process down) at the plain lag points
+		// below, which are then skipped.
+		insists := true
+		for _, l := range sIdx {
+			u := s.J[l]
+			if n := len(u.Ops); n < 2 || !strings.HasPrefix(s.sc.opText('S', u.Ops[n-1]), "+mark:") {
+				continue
+			}
+			if !s.lagAt(sp.m+1, l, true) {
+				insists = false
+			}
+		}
+		if !insists {
+			s.run.Count("lag-points-skipped(recovery does not insist on the state marker)")
+			continue
+		}
+		ks := []int{sp.m + 1}
+		if sp.d > sp.m+1 {
+			ks = append(ks, sp.d)
+		}
+		for _, k := range ks {
 			for _, l := range sIdx {
-				t := s.base.clone()
-				for i := 0; i < k; i++ {
-					if s.J[i].DB == 'C' || i < l {
-						t.apply(s.J[i])
-					}
-				}
-				line := fmt.Sprintf("lag %d %d", k, l)
-				s.run.Pending(line)
-				r := s.restart(t)
-				s.op(line, r.ans, true)
-				s.run.Count("lag-points")
-				if r.n == nil || !r.ok {
-					s.run.Count("lag-refused")
-					if r.n != nil {
-						r.n.close()
-					}
-					continue
-				}
-				s.run.Count("lag-came-up")
-				if what := s.invariant(r.n, r.n.stores()); what != "" {
-					s.fail("state DB lagging behind the chain DB: the node came up, and is not coherent: "+what, line)
-				}
-				r.n.close()
+				s.lagAt(k, l, false)
 			}
 		}
 	}
+}
+
+// lagAt restarts on: chain DB = first k units, state DB = its units before position l (torn: plus unit l without
+// its last entry). Returns false when the node came up and is not coherent.
+func (s *session) lagAt(k, l int, torn bool) bool {
+	t := s.base.clone()
+	for i := 0; i < k; i++ {
+		switch {
+		case s.J[i].DB == 'C' || i < l:
+			t.apply(s.J[i])
+		case i == l && torn:
+			t.applyTorn(s.J[i], len(s.J[i].Ops)-1)
+		}
+	}
+	line := fmt.Sprintf("lag %d %d", k, l)
+	if torn {
+		line += " 1" // model: the data entry of the state unit without the marker entry
+	}
+	s.run.Pending(line)
+	r := s.restart(t)
+	s.op(line, r.ans, true)
+	if torn {
+		s.run.Count("lag-points-torn")
+	} else {
+		s.run.Count("lag-points")
+	}
+	if r.n == nil || !r.ok {
+		s.run.Count("lag-refused")
+		if r.n != nil {
+			r.n.close()
+		}
+		return true
+	}
+	s.run.Count("lag-came-up")
+	ok := true
+	if what := s.invariant(r.n, r.n.stores()); what != "" {
+		s.fail("state DB lagging behind the chain DB: the node came up, and is not coherent: "+what, line)
+		ok = false
+	}
+	r.n.close()
+	return ok
 }
 
 func (s *session) crashAt(st *kv, line string, c crashCtx, nested bool) {
